@@ -34,6 +34,7 @@ type config struct {
 	Entry  string
 	NoEKU  bool // the checked leaf carries no extended key usage at all
 	CRL    bool // the checked leaf also names a distribution point that serves a clean, current CRL
+	OQ     bool // the responder URLs carry a path and a query component
 }
 
 func configs() []config {
@@ -43,12 +44,15 @@ func configs() []config {
 			for _, long := range []bool{false, true} {
 				for _, st := range []bool{false, true} {
 					for _, e := range []string{"validate", "ocsp"} {
-						out = append(out, config{l, ca, long, st, e, false, false})
+						out = append(out, config{l, ca, long, st, e, false, false, false})
 						if !long {
-							out = append(out, config{l, ca, long, st, e, true, false})
+							out = append(out, config{l, ca, long, st, e, true, false, false})
 						}
 						if !long && e == "validate" {
-							out = append(out, config{l, ca, long, st, e, false, true})
+							out = append(out, config{l, ca, long, st, e, false, true, false})
+						}
+						if l == 2 && ca == "p256" {
+							out = append(out, config{l, ca, long, st, e, false, false, true})
 						}
 					}
 				}
@@ -63,6 +67,11 @@ func scenario(c config, behs []string) *sims.Scenario {
 	sh := sims.HTTPShape(len(behs), 0)
 	sh.LongSerial = c.Long
 	sh.NoEKU = c.NoEKU
+	if c.OQ {
+		for i := range sh.OCSP {
+			sh.OCSP[i] = "httpoq"
+		}
+	}
 	sc.Plans = make([]sims.CertPlan, c.Len)
 	sc.Plans[0] = sims.CertPlan{Shape: sh, OCSP: behs}
 	if c.CRL {
